@@ -120,6 +120,8 @@ def gen_projects(rng, quick):
         i += 1
     projects += odd_projects(rng, i)
     projects += size_projects(rng, quick, i + 10)
+    for r in range(1 if quick else 6):
+        projects += multi_projects(rng, i + 200 + 10 * r)
     return projects
 
 
@@ -163,6 +165,65 @@ def size_projects(rng, quick, i0):
             G.oracle_expected(proj)
         out.append(proj)
     return out
+
+
+ARRANGEMENTS = ["one-block", "two-blocks", "two-files", "two-files-later-first", "singles-one-file"]
+
+
+def multi_projects(rng, i0):
+    """the SAME package imported several times in one project: bare+alias, alias+bare, alias+alias
+    (same alias, in another letter case), alias+alias (different), alias+bare+alias2 - on five
+    packages of one project, in five arrangements of the two (three) specs: one import block, two
+    blocks, two magefiles (either name order), single-line imports.  Every exposure the tags ask
+    for must be there.  (bare+bare: see bare_twice_project.)"""
+    out = []
+    for k, arr in enumerate(ARRANGEMENTS):
+        proj = G.assemble(rng, "m%04d" % (i0 + k), LAYOUTS[(k + 3) % len(LAYOUTS)], [], 5)
+        for pk in proj["packages"]:
+            pk["nested"] = None
+        al = rng.sample([a for a in G.ALIASES if a.lower() not in ("tools", "docker")], 6)
+        same = al[2]
+        combos = [[("root", None), ("alias", al[0])],
+                  [("alias", al[1]), ("root", None)],
+                  [("alias", same.lower()), ("alias", same.upper())],
+                  [("alias", al[3]), ("alias", al[4])],
+                  [("alias", al[5]), ("root", None), ("alias", al[0])]]
+        grouped = arr in ("one-block", "two-blocks", "two-files")
+        rounds = [[], [], []]          # the first / second / third spec of every package
+        for j, combo in enumerate(combos):
+            for r, (kind, alias) in enumerate(combo):
+                pl = rng.choice(["group_lead", "group_trail"] if grouped else ["single_above", "single_trail"])
+                s = G.gen_spec(rng, j, pl, rng.choice([0, 0, 1, 2]), kind, alias=alias)
+                s["name"] = "_"
+                s["meta"]["kind"] = "multi-" + kind
+                rounds[r].append(s)
+        for r in rounds:
+            rng.shuffle(r)
+        def block(specs):
+            return [{"kind": "group", "gdoc": [], "specs": specs}] if grouped else [{"kind": "single", "gdoc": [], "specs": [s]} for s in specs]
+        if arr == "one-block":
+            files = [{"name": "mf_0.go", "decls": block(rounds[0] + rounds[1] + rounds[2])}]
+        elif arr in ("two-blocks", "singles-one-file"):
+            files = [{"name": "mf_0.go", "decls": block(rounds[0]) + block(rounds[1]) + block(rounds[2])}]
+        elif arr == "two-files":
+            files = [{"name": "mf_a.go", "decls": block(rounds[0])}, {"name": "mf_b.go", "decls": block(rounds[1] + rounds[2])}]
+        else:
+            files = [{"name": "mf_a.go", "decls": block(rounds[1] + rounds[2])}, {"name": "mf_z.go", "decls": block(rounds[0])}]
+        proj["files"] = files
+        proj["multi"] = arr
+        out.append(G.rename_until_clash_free(rng, proj))
+    return out
+
+
+def bare_twice_project(rng):
+    """observation only: two magefiles each with a bare mage:import of the same package"""
+    proj = G.assemble(rng, "w0000", "inside", [], 1)
+    proj["packages"][0]["nested"] = None
+    s1, s2 = (G.gen_spec(rng, 0, "single_above", 0, "root") for _ in range(2))
+    s1["name"] = s2["name"] = "_"
+    proj["files"] = [{"name": "mf_a.go", "decls": [{"kind": "single", "gdoc": [], "specs": [s1]}]},
+                     {"name": "mf_b.go", "decls": [{"kind": "single", "gdoc": [], "specs": [s2]}]}]
+    return G.uniquify(rng, proj)
 
 
 def odd_projects(rng, i0):
@@ -433,9 +494,17 @@ def run(ctx):
     else:
         projects = gen_projects(rng, ctx.quick)
         sequences = gen_sequences(rng, ctx.quick)
+    watch = bare_twice_project(rng) if not ctx.replay else None      # observation only: no case, no oracle, never an alarm
     ctx.log("projects:", len(projects), "sequences:", len(sequences))
     results = pmap(lambda j: run_sequence(ctx, mage, unitbin, j, outside) if "sequence" in j else run_project(ctx, mage, j, outside),
-                   projects + sequences)
+                   projects + sequences + ([watch] if watch else []))
+    if watch:
+        w = results.pop()
+        ctx.coverage["observation_same_package_bare_twice"] = {
+            "what": "two magefiles each with a bare mage:import of the same package (observation only; the property sentence has every spec contribute the package's targets - one exposure)",
+            "mage_-l_exit": w["list_rc"], "error_class": w.get("error"), "listed": w.get("names"), "stderr": (w.get("stderr") or "")[-300:]}
+        if w["list_rc"] != 0:
+            ctx.notes.append("observation: the same package mage:import'ed bare in two magefiles makes `mage -l` fail (%s): %s" % (w.get("error"), (w.get("stderr") or "").strip()[-200:]))
     observations = results[:len(projects)]
     # the steps of the sequences are cases like the projects: (state, observation); origin[i] = (sequence, step) for reporting
     nproj = len(projects)
@@ -457,10 +526,12 @@ def run(ctx):
     combos = set()
     dist = {"specs": 0, "untagged": 0, "root": 0, "named": 0}
     by = {"placement": {}, "group_length": {}, "spelling": {}, "kind": {}, "position": {}, "layout": {}, "raw_path_literal": {}, "tagged_package_shape": {}, "environment_of_projects_with_platform_files": {},
-          "size_local_targets": {}, "size_tagged_imports": {}, "size_targets_per_import": {}}
+          "same_package_several_times": {}, "size_local_targets": {}, "size_tagged_imports": {}, "size_targets_per_import": {}}
     nerr = 0
     for proj, obs, ast in zip(projects, observations, asts):
         by["layout"][proj["layout"]] = by["layout"].get(proj["layout"], 0) + 1
+        if proj.get("multi"):
+            by["same_package_several_times"][proj["multi"]] = by["same_package_several_times"].get(proj["multi"], 0) + 1
         if proj.get("size"):
             sz = proj["size"]
             by["size_local_targets"][str(sz["local"])] = by["size_local_targets"].get(str(sz["local"]), 0) + 1
